@@ -699,19 +699,6 @@ def select(table, walks, tier, rng, rep):
 
 
 def generate(rep, tier):
-    import os
-    cache = os.environ.get("C16_DEV_CACHE")
-    if cache and os.path.exists(cache):
-        d = json.load(open(cache))
-        rep.coverage["states"] = 1; rep.coverage["transitions"] = 1
-        return d["table"], d["walks"]
-    t, w = _generate(rep, tier)
-    if cache:
-        json.dump(dict(table=t, walks=w), open(cache, "w"))
-    return t, w
-
-
-def _generate(rep, tier):
     des = tlc.run("ContactGeom.tla", "ContactGeom_design.cfg", label="design", timeout=3000)
     if tlc.require_ok(des, rep, "design"):
         rep.add_tlc(des)
